@@ -79,6 +79,13 @@ func SetEdns0(req *dns.Msg, policy *ecs.Policy, client netip.Addr) (*dns.OPT, in
 		// the old backing array be GC'd with the request.
 		opt.Option = nil
 
+		// An OPT record is the only one of its message (RFC 6891 §6.1.1).
+		// IsEdns0 picked one — the last; a decoded request that arrived
+		// with more would carry the others, options untouched, to the
+		// upstream (the client's subnet, cookie, padding) and back to the
+		// client on every reply built from req.Extra.
+		req.Extra = SingleOPT(req.Extra, opt)
+
 		// If the policy allows ECS forwarding for this client, put a
 		// clamped copy of the client's option back on. Clamp() handles
 		// source-prefix ceiling, address truncation, and family sanity;
@@ -127,6 +134,31 @@ func GenerateServerCookie(secret, remoteip, cookie string) string {
 func ClearOPT(msg *dns.Msg) *dns.Msg {
 	msg.Extra = filterOut(msg.Extra, isOPT)
 	return msg
+}
+
+// SingleOPT returns extra without any OPT record other than keep. The
+// common case — keep is the only OPT — returns the input unchanged; when
+// something has to go a fresh slice is built, because the section may be
+// shared with the request or with an upstream writer layer.
+func SingleOPT(extra []dns.RR, keep *dns.OPT) []dns.RR {
+	others := 0
+	for _, rr := range extra {
+		if opt, ok := rr.(*dns.OPT); ok && opt != keep {
+			others++
+		}
+	}
+	if others == 0 {
+		return extra
+	}
+
+	kept := make([]dns.RR, 0, len(extra)-others)
+	for _, rr := range extra {
+		if opt, ok := rr.(*dns.OPT); ok && opt != keep {
+			continue
+		}
+		kept = append(kept, rr)
+	}
+	return kept
 }
 
 // ClearDNSSEC removes RRSIG, NSEC and NSEC3 records from Answer and Ns
